@@ -4,6 +4,7 @@
 mod dump;
 mod gen;
 mod ir;
+mod parse;
 mod toast;
 
 use std::io::Write;
@@ -73,6 +74,48 @@ fn main() {
                     }
                 }
             }
+        }
+        "replay" => {
+            // re-run the real analyzer on the programs of a cases file (G and P lines; D lines are ignored)
+            let path = args.get(2).cloned().unwrap_or_default();
+            let text = std::fs::read_to_string(&path).unwrap_or_else(|e| {
+                eprintln!("cannot read {path}: {e}");
+                std::process::exit(2);
+            });
+            let mut pending: Vec<ir::Prog> = vec![];
+            let mut hdr: Option<(usize, String)> = None;
+            let mut flush = |hdr: &mut Option<(usize, String)>, pending: &mut Vec<ir::Prog>, out: &mut dyn Write| {
+                if let Some((_, h)) = hdr.take() {
+                    if !pending.is_empty() {
+                        writeln!(out, "G {} {}", pending.len(), h).unwrap();
+                        for p in pending.iter() {
+                            writeln!(out, "P {}", ir::w_prog(p)).unwrap();
+                            writeln!(out, "D {}", dump::analyze(p)).unwrap();
+                        }
+                    }
+                }
+                pending.clear();
+            };
+            for line in text.lines() {
+                if let Some(rest) = line.strip_prefix("G ") {
+                    flush(&mut hdr, &mut pending, &mut out);
+                    let mut it = rest.splitn(2, ' ');
+                    let n: usize = it.next().and_then(|x| x.parse().ok()).unwrap_or(1);
+                    hdr = Some((n, it.next().unwrap_or("replay").to_string()));
+                } else if let Some(rest) = line.strip_prefix("P ") {
+                    if hdr.is_none() {
+                        hdr = Some((1, "replay x".to_string()));
+                    }
+                    match parse::prog(rest) {
+                        Some(p) => pending.push(p),
+                        None => {
+                            eprintln!("cannot parse program line");
+                            std::process::exit(2);
+                        }
+                    }
+                }
+            }
+            flush(&mut hdr, &mut pending, &mut out);
         }
         _ => {
             eprintln!("usage: semverif-harness gen --profile <p> --seed <n> --count <n>");
